@@ -4,7 +4,8 @@
     regenerated from util/serialization.py, models/basemodels.py, models/molecule.py on every run.
     The json / msgpack wire codecs are trusted libraries (their effect on a plain tree is [normalise]). *)
 From Coq Require Import ZArith List String Bool.
-Require Import QV.Common.Outcome QV.Gen.SuffixMaps QV.Model.Results QV.Model.Serial QV.Proofs.Results QV.Proofs.Serial.
+Require Import QV.Common.Outcome QV.Gen.SuffixMaps QV.Model.Results QV.Model.Serial QV.Model.SerialInst QV.Proofs.Results
+  QV.Proofs.Serial QV.Proofs.SerialInst.
 Import ListNotations.
 Local Open Scope string_scope.
 Local Open Scope list_scope.
@@ -55,6 +56,35 @@ Proof.
     rewrite Z.div_mul by discriminate. reflexivity.
 Qed.
 
+(** Model instances (the dict() tree of a Molecule, AtomicResult, OptimizationResult, ...) through ALL FOUR encodings.
+    [schema] gives, per field, what the validators do with what comes off the wire (Array fields: cast to
+    the dtype + the reshape rule of C20; Any fields keep what they get; nested models / lists recurse);
+    [conforms] says the instance is a valid one (arrays of the field's dtype, well formed, already in
+    the validated shape; under a flat encoding: no array inside Any-typed fields, and an Array field
+    without reshape validator is 1-d).  numpy's element conversion is a section variable with its
+    specification [EL1-EL3] (np.asarray(a.ravel().tolist(), a.dtype) has the bytes of a).  Then
+    parse (serialize m) = m up to tuple -> list, for json and msgpack (flat) and for json-ext and
+    msgpack-ext (any codec satisfying codec_ok whose marker key is "_nd_"). *)
+Theorem C10_model_roundtrip_enc : forall elems of_elems sc,
+  (forall a, wf_arrb a = true -> of_elems (dt a) (elems a) = data a) ->
+  (forall a, wf_arrb a = true -> zlen (elems a) = prodz (shape a)) ->
+  (forall a, Forall (fun x => is_leaf x = true) (elems a)) ->
+  (forall m s, conforms true s m = true -> parse_flat of_elems s (ser_flat elems sc m) = Ok (normalise m))
+  /\ (forall c, codec_ok c -> (k_nd c = KStr "_nd_" \/ k_nd c = KBytes "_nd_") ->
+       forall m s, conforms false s m = true -> parse_ext of_elems c s (ser_ext sc c m) = Ok (normalise m)).
+Proof.
+  intros elems of_elems sc E1 E2 E3. split.
+  - apply flat_model_roundtrip; assumption.
+  - intros c OK Hk. apply ext_model_roundtrip; assumption.
+Qed.
+
+(** Serialising the parsed instance again gives the identical payload: the parsed instance is
+    [normalise m] (previous theorem) and serialisation does not see the difference. *)
+Theorem C10_reserialisation_identical : forall elems sc,
+  (forall m, ser_flat elems sc (normalise m) = ser_flat elems sc m)
+  /\ (forall c m, ser_ext sc c (normalise m) = ser_ext sc c m).
+Proof. intros elems sc. split; [apply reser_flat|intros c m; apply reser_ext]. Qed.
+
 (** Automatic choices (finite, over the generated tables): for str / bytes input parse_raw picks an
     encoding whose writer produces that type and whose reader reads that writer; every parse_file suffix
     and every Molecule.to_file/from_file suffix pairs a writer with a reader of the same wire family that
@@ -93,10 +123,24 @@ Example C10_ex_wire :
            (KStr "shape", VList [VInt 1; VInt 2])].
 Proof. vm_compute. reflexivity. Qed.
 
+(** Non-vacuity: a two-atom molecule-like instance (geometry 2x3 float64 under the rule reshape(-1,3), an int16
+    vector without reshape rule, a nested Any-typed dict holding a tuple) conforms under both families. *)
+Definition ex_schema : schema :=
+  SModel [("symbols", SAny); ("geometry", SArr "<f8" (Some [-1; 3])); ("atomic_numbers", SArr "<i2" None); ("extras", SAny)].
+Definition ex_instance : value :=
+  VDict [(KStr "symbols", VList [VStr "He"; VStr "He"]);
+         (KStr "geometry", VArr {| dt := "<f8"; shape := [2; 3]; data := "000000001111111122222222333333334444444455555555" |});
+         (KStr "atomic_numbers", VArr {| dt := "<i2"; shape := [2]; data := "2020" |});
+         (KStr "extras", VDict [(KStr "t", VTuple [VInt 1; VInt 2])])].
+Example C10_ex_instance_conforms : conforms true ex_schema ex_instance = true /\ conforms false ex_schema ex_instance = true.
+Proof. split; vm_compute; reflexivity. Qed.
+
 Print Assumptions C10_codecs_ok.
 Print Assumptions C10_ext_array_roundtrip.
 Print Assumptions C10_ext_tree_roundtrip.
 Print Assumptions C10_nd_key_hypothesis_needed.
 Print Assumptions C10_rank0_decays.
 Print Assumptions C10_flat_then_reshape_restores.
+Print Assumptions C10_model_roundtrip_enc.
+Print Assumptions C10_reserialisation_identical.
 Print Assumptions C10_auto_choice_consistent.
